@@ -15,10 +15,13 @@ from harness.common import exc_name, canon, jdump
 
 PID = "C03"
 TITLE = "Split.run follows its documented block/branch schedule for every branch mix"
-LEAN_MODULES = ["LenaModel.Props.C03", "LenaModel.Props.C03X", "LenaModel.Props.C03Zip", "LenaModel.Props.C03R"]
+LEAN_MODULES = ["LenaModel.Props.C03", "LenaModel.Props.C03X", "LenaModel.Props.C03Zip", "LenaModel.Props.C03R",
+                "LenaModel.Props.C03A", "LenaModel.Props.C03G"]
 LEAN_SOURCES = ["LenaModel/Model/C03.lean", "LenaModel/Lemmas/C03.lean", "LenaModel/Props/C03.lean",
                 "LenaModel/Model/C03X.lean", "LenaModel/Lemmas/C03X.lean", "LenaModel/Props/C03X.lean",
-                "LenaModel/Model/C03Zip.lean", "LenaModel/Props/C03Zip.lean", "LenaModel/Model/C03Spec.lean", "LenaModel/Props/C03R.lean"]
+                "LenaModel/Model/C03Zip.lean", "LenaModel/Props/C03Zip.lean", "LenaModel/Model/C03Spec.lean", "LenaModel/Props/C03R.lean",
+                "LenaModel/Model/C03Exc.lean", "LenaModel/Model/C03G.lean", "LenaModel/Props/C03A.lean",
+                "LenaModel/Props/C03G.lean"]
 DRIVER = "drivers/C03.lean"
 THEOREMS = [
     "Lena.C03.loop_refines_spec",
@@ -91,6 +94,23 @@ THEOREMS = [
     "Lena.C03.common_type_fill_request_full_false",
     "Lena.C03.nested_fill_compute_partial",
     "Lena.C03.nested_fill_request_partial",
+    # adversary round: the stop signal is LenaStopFill (and subclasses) only; bufsize=None is one block of any
+    # length; Split.run as a generator: alone it is Split.runTrace, and runs of one Split over stateless branches
+    # do not interfere under any interleaving
+    "Lena.C03.isStopSignal_iff",
+    "Lena.C03.lena_errors_are_not_stop_signals",
+    "Lena.C03.stop_signal_is_lenaException",
+    "Lena.C03.fillBufP_raised_not_stop",
+    "Lena.C03.foreign_fill_error_not_finalised",
+    "Lena.C03.stop_signal_finalises",
+    "Lena.C03.none_sequence_once",
+    "Lena.C03.none_fillRequest_once",
+    "Lena.C03.large_bufsize_as_none",
+    "Lena.C03.gen_alone",
+    "Lena.C03.runSched_stateless",
+    "Lena.C03.interleaved_runs",
+    "Lena.C03.interleaved_runs_outputs",
+    "Lena.C03.interleaved_harness",
 ]
 # true by definition, model-internal glue, or superseded by a `_partial` name: audited, not counted as obligations
 AUX_THEOREMS = [
@@ -111,6 +131,25 @@ AUX_THEOREMS = [
     "Lena.C03.mkOuterBranches_nodup",
     "Lena.C03.mkBranchesX_nodup",
     "Lena.C03.streaming_of_perValue",
+    "Lena.C03.isa_refl",
+    "Lena.C03.ofName_name",
+    "Lena.C03.catchStopFill_stop_iff",
+    "Lena.C03.catchStopFill_raised_iff",
+    "Lena.C03.catchStopFillName_name",
+    "Lena.C03.toX_fill",
+    "Lena.C03.fillBufX_events_fill",
+    "Lena.C03.blocks_none_length",
+    "Lena.C03.genIter_pass",
+    "Lena.C03.genIter_block",
+    "Lena.C03.genIter_blocks",
+    "Lena.C03.genIter_final",
+    "Lena.C03.genIter_after_fin",
+    "Lena.C03.stepFull_stateless",
+    "Lena.C03.finalFull_stateless",
+    "Lena.C03.microStep_store_stateless",
+    "Lena.C03.shspec_stateless",
+    "Lena.C03.storeOf_stateless",
+    "Lena.C03.mkStatelessBranches_nodup",
 ]
 CASE_TIMEOUT = 10
 
@@ -129,10 +168,82 @@ def _kind(sp):
 # ----------------------------------------------------------------------------------------
 # instrumented branch elements (the harness vocabulary; Lean: `BSpec.ops`)
 
+_EXC_CACHE = {}
+
+# exception classes a harness branch can raise from fill() / from inside its generators.  Split.run catches
+# LenaStopFill (and, `except` being an isinstance test, its subclasses) around fill() ONLY; everything else —
+# also the other LenaException subclasses and LenaException itself — leaves Split.run.
+# Lean: `ExcClass` (Model/C03A.lean), same names.
+FILL_EXCS = ["ValueError", "ValueError", "LenaValueError", "LenaTypeError", "LenaException", "LenaRuntimeError",
+             "LenaKeyError", "LenaIndexError", "LenaAttributeError", "LenaNotImplementedError",
+             "LenaZeroDivisionError", "SubLenaException", "Exception", "RuntimeError", "KeyboardInterrupt",
+             "LenaStopFill", "SubStopFill"]
+GEN_EXCS = ["ValueError", "ValueError", "LenaStopFill", "KeyboardInterrupt", "LenaValueError", "LenaException",
+            "SubStopFill", "LenaRuntimeError", "Exception"]
+_KNOWN_EXC_NAMES = {"LenaTypeError", "LenaValueError", "LenaKeyError", "LenaStopFill", "LenaIndexError",
+                    "LenaAttributeError", "LenaRuntimeError", "LenaZeroDivisionError", "LenaEnvironmentError",
+                    "LenaNotImplementedError"}
+
+
+def _xname(name):
+    """the name `harness.common.exc_name` gives an exception of the class called `name`"""
+    return name if name in _KNOWN_EXC_NAMES else "Other:" + name
+
+
 def _boom_exc(name):
     import lena.core
-    return {"ValueError": ValueError, "LenaStopFill": lena.core.LenaStopFill,
-            "KeyboardInterrupt": KeyboardInterrupt}[name or "ValueError"]
+    name = name or "ValueError"
+    key = (name, id(lena.core))
+    if key not in _EXC_CACHE:
+        if name == "SubStopFill":
+            cls = type("SubStopFill", (lena.core.LenaStopFill,), {})      # a user-defined stop signal
+        elif name == "SubLenaException":
+            cls = type("SubLenaException", (lena.core.LenaException,), {})  # a user-defined lena error
+        elif name.startswith("Lena"):
+            cls = getattr(lena.core, name)
+        else:
+            cls = {"ValueError": ValueError, "KeyboardInterrupt": KeyboardInterrupt, "Exception": Exception,
+                   "RuntimeError": RuntimeError}[name]
+        _EXC_CACHE[key] = cls
+    return _EXC_CACHE[key]
+
+
+EXC_NAMES = ["BaseException", "Exception", "KeyboardInterrupt", "ArithmeticError", "LookupError", "OSError",
+             "AttributeError", "IndexError", "KeyError", "NotImplementedError", "RuntimeError", "TypeError", "ValueError",
+             "ZeroDivisionError", "LenaException", "LenaAttributeError", "LenaEnvironmentError", "LenaIndexError",
+             "LenaKeyError", "LenaNotImplementedError", "LenaRuntimeError", "LenaStopFill", "LenaTypeError",
+             "LenaValueError", "LenaZeroDivisionError", "SubStopFill", "SubLenaException"]
+
+
+def _exc_class(name):
+    import builtins
+    if name.startswith(("Lena", "Sub")):
+        return _boom_exc(name)
+    return getattr(builtins, name)
+
+
+def _exc_impl(case):
+    """the real classes: direct bases, and what an `except LenaStopFill` / `except LenaException` / `except
+    Exception` clause catches (issubclass)"""
+    import lena.core
+    cls = _exc_class(case["name"])
+    bases = ["OSError" if b is OSError else b.__name__ for b in cls.__bases__ if b is not object]
+    caught = False
+    try:
+        try:
+            raise cls("x")
+        except lena.core.LenaStopFill:
+            caught = True
+    except BaseException:
+        pass
+    return {"name": case["name"], "bases": bases, "stop": issubclass(cls, lena.core.LenaStopFill),
+            "lena": issubclass(cls, lena.core.LenaException), "exception": issubclass(cls, Exception),
+            "caught": caught, "caught_by_name": caught}
+
+
+def _is_stop_class(name):
+    import lena.core
+    return issubclass(_boom_exc(name), lena.core.LenaStopFill)
 
 
 def _boom_iter(res, boom, exc=None):
@@ -173,6 +284,7 @@ class _Filler(object):
         self.v, self.n, self.calls = [], 0, 0
         self.boom_fill, self.boom_gen = boom_fill, boom_gen
         self.boom_exc = None
+        self.boom_fill_exc = None
 
     def state(self):
         return {"v": list(self.v), "n": self.n, "calls": self.calls, "total": 0}
@@ -180,8 +292,9 @@ class _Filler(object):
     def fill(self, x):
         import lena.core
         if self.boom_fill is not None and self.n >= self.boom_fill:
-            self.log.append((self.tag, ["fill", x, False]))
-            raise ValueError("boom")
+            # the third entry of the log: "this fill signalled LenaStopFill" (an instance of a subclass is one)
+            self.log.append((self.tag, ["fill", x, _is_stop_class(self.boom_fill_exc)]))
+            raise _boom_exc(self.boom_fill_exc)("boom")
         if self.stop is not None and self.n >= self.stop:
             if self.late:
                 self.v.append(x)
@@ -295,6 +408,8 @@ def _mk_el(sp, tag, log):
         el = SQ(tag, sp["v"], log, bg)
     if el is not None:
         el.boom_exc = sp.get("boom_exc")
+        if k in ("fc", "fr"):
+            el.boom_fill_exc = sp.get("boom_fill_exc")
         return el
     if k == "sum":
         return _mk_sum(tag, log)
@@ -402,11 +517,12 @@ def _build(specs, log):
 
 
 FLOW_KINDS = ["list", "iter", "tuple", "gen", "range"]
-MAX_OUT = 3000
+MAX_OUT = 30000
 
 
 class _Endless(Exception):
-    """the run yields without end (more than MAX_OUT values for a flow of at most a dozen)"""
+    """the run yields without end (more than MAX_OUT values; the longest generated flows have 8200 values and at
+    most three branches with one or two results per value)"""
 
 
 MAX_ITERS = 400
@@ -732,11 +848,12 @@ def _rand_runx(rng, maxbr, maxn):
             continue
         sp = _rand_spec(rng, n, ("src", "fc", "fr", "sq"))
         r = rng.random()
-        if r < 0.15 and sp["k"] in ("fc", "fr"):
+        if r < 0.2 and sp["k"] in ("fc", "fr"):
             sp["boom_fill"] = rng.randint(0, n + 1)
-        elif r < 0.3 and not (sp["k"] == "sq" and sp["v"] == "lam"):
+            sp["boom_fill_exc"] = rng.choice(FILL_EXCS)
+        elif r < 0.35 and not (sp["k"] == "sq" and sp["v"] == "lam"):
             sp["boom_gen"] = rng.randint(0, 3)
-            sp["boom_exc"] = rng.choice(["ValueError", "ValueError", "LenaStopFill", "KeyboardInterrupt"])
+            sp["boom_exc"] = rng.choice(GEN_EXCS)
         brs.append(sp)
     r = rng.random()
     bufarg = rng.choice(BUFARGS) if r < 0.15 else rng.choice([None, {"int": 1}, {"int": 2}, {"int": 3}, {"int": 1000}])
@@ -807,10 +924,27 @@ def _real_kind(name):
             "fill_request" if name.endswith("FR") else "fill_compute")
 
 
+def _touch(o, name):
+    """change, in place, EVERY mutable container reachable from the value: the data part as well as the context,
+    at every depth (a list gets a marker appended, a dict a marker under "seen_by")"""
+    if isinstance(o, tuple):
+        for x in o:
+            _touch(x, name)
+    elif isinstance(o, list):
+        for x in list(o):
+            _touch(x, name)
+        o.append("seen_by:" + name)
+    elif isinstance(o, dict):
+        for x in list(o.values()):
+            _touch(x, name)
+        o["seen_by"] = o.get("seen_by", "") + name
+
+
 class _MutBase(object):
-    """a harness accumulator on (data, context) values: Mut* marks, in place, the context of every value it is
-    filled with (as lena.flow.Count does with the last one at compute time); Keep* reports the last value object
-    it was filled with — so a missing copy between two branches changes VALUES"""
+    """a harness accumulator: Mut* changes, in place, every mutable part of every value it is filled with — the
+    context (as lena.flow.Count does with the last one at compute time) and the data (as an element that sorts a
+    list of hits does), at every depth; Keep* reports the last value object it was filled with — so a missing or
+    shallow copy between two branches changes VALUES"""
 
     def __init__(self, name, mutate):
         self.name, self.mutate = name, mutate
@@ -818,8 +952,8 @@ class _MutBase(object):
 
     def fill(self, val):
         self.n += 1
-        if self.mutate and isinstance(val, tuple) and len(val) == 2 and isinstance(val[1], dict):
-            val[1]["seen_by"] = val[1].get("seen_by", "") + self.name
+        if self.mutate:
+            _touch(val, self.name)
         self.last = val
 
     def _results(self):
@@ -878,13 +1012,202 @@ def _rand_realfc(rng):
     names = {"fc": REAL_FC, "fr": REAL_FR, "mixed": REAL_MIXED, "zipfc": ["MutFC", "KeepFC"],
              "zipfr": ["MutFR", "KeepFR"]}[kind]
     n = rng.randint(0, 5)
+    brs = [rng.choice(names) for _ in range(rng.randint(1, 4))]
+    # the real accumulators need numbers as data; the harness elements take any value: data that is itself
+    # mutable (lists, dicts, nested), contexts with nested dictionaries and lists, bare mutable values
+    numeric = any(b in ("Sum", "Mean") for b in brs) or rng.random() < 0.3
     flow = []
     for i in range(n):
         r = rng.random()
         data = rng.randint(-3, 9)
-        flow.append([data, {"tag": "v%d" % i}] if r < 0.75 else [data, {}] if r < 0.85 else data)
-    return {"op": "realfc", "kind": kind, "brs": [rng.choice(names) for _ in range(rng.randint(1, 4))],
+        if not numeric:
+            q = rng.random()
+            if q < 0.35:
+                data = [rng.randint(-3, 9) for _ in range(rng.randint(0, 3))]
+            elif q < 0.5:
+                data = [[data], [i]]
+            elif q < 0.65:
+                data = {"x": data, "hits": [i]}
+        ctx = {"tag": "v%d" % i}
+        q = rng.random()
+        if q < 0.3:
+            ctx["sub"] = {"k": i}
+        elif q < 0.45:
+            ctx["sub"] = {"deep": {"k": i}, "l": [i]}
+        if r < 0.75:
+            flow.append([data, ctx])
+        elif r < 0.85:
+            flow.append([data, {}])
+        elif numeric or isinstance(data, int):
+            flow.append(data)
+        else:
+            flow.append({"bare": data})
+    return {"op": "realfc", "kind": kind, "brs": brs,
             "flow": flow, "copy_buf": rng.random() < 0.75, "bufsize": rng.choice([1, 2, 3, 1000, None])}
+
+
+# ---- one Split object, several runs alive at the same time (op "inter") -----------------------------------
+# The branches are STATELESS (their methods are functions of their arguments alone), so what every run must yield
+# is determined by the statement whatever the order in which the generators are consumed.  Lean: `SSpec`.
+
+class SSrc(object):
+    def __init__(self, tag, k):
+        self.tag, self.k = tag, k
+
+    def __call__(self):
+        return iter([(self.tag, "src", j) for j in range(self.k)])
+
+
+class SFill(object):
+    """fill(x) signals LenaStopFill iff x >= m (a function of the value alone); the results are constant"""
+
+    def __init__(self, tag, m, meth):
+        self.tag, self.m = tag, m
+        setattr(self, meth, lambda: iter([(self.tag, meth)]))
+
+    def fill(self, x):
+        import lena.core
+        if self.m is not None and x >= self.m:
+            raise lena.core.LenaStopFill()
+
+
+S_SQ = ("map", "even", "dup", "lam")
+
+
+def _mk_sel(sp, tag):
+    k = sp["k"]
+    if k == "src":
+        return SSrc(tag, sp["n"])
+    if k == "fc":
+        return SFill(tag, sp["m"], "compute")
+    if k == "fr":
+        return SFill(tag, sp["m"], "request")
+    if k == "sq" and sp["v"] == "lam":
+        return lambda x, tag=tag: (tag, "lam", x)
+    if k == "sq" and sp["v"] in S_SQ:
+        return SQ(tag, sp["v"], [])
+    raise ValueError(sp)
+
+
+def _rand_sspec(rng):
+    k = rng.choice(["src", "fc", "fr", "sq", "fc", "fr"])
+    if k == "src":
+        sp = {"k": "src", "n": rng.choice([0, 1, 2, 3])}
+    elif k in ("fc", "fr"):
+        sp = {"k": k, "m": rng.choice([None, None, 0, 3, 5, 8, 12, 15])}
+    else:
+        sp = {"k": "sq", "v": rng.choice(S_SQ)}
+    forms = (["el"] + _TUPLE_FORMS) if (k == "sq" and sp["v"] == "lam") else FORMS[k]
+    sp["form"] = rng.choice(forms)
+    return sp
+
+
+def _rand_inter(rng, maxbr, maxn):
+    nf = rng.choice([2, 2, 2, 3])
+    flows = [_rand_flow(rng, maxn) for _ in range(nf)]
+    if rng.random() < 0.2:
+        flows[1] = list(flows[0])
+    brs = [_rand_sspec(rng) for _ in range(rng.randint(0 if rng.random() < 0.05 else 1, maxbr))]
+    # the order in which values are requested from the runs (afterwards the runs are drained one after another)
+    total = sum(len(f) for f in flows) * 2 + 6
+    r = rng.random()
+    if r < 0.4:
+        sched = [i % nf for i in range(total)]                       # zip-like
+    elif r < 0.55:
+        sched = [0] * rng.randint(1, 4) + [1] * 40                   # start one, finish another, come back
+    else:
+        sched = [rng.randrange(nf) for _ in range(rng.randint(0, total))]
+    return {"op": "inter", "brs": brs, "flows": flows, "sched": sched, "copy_buf": rng.random() < 0.5,
+            "bufsize": rng.choice([1, 1, 2, 3, 1000, None]), "fk": rng.randrange(5)}
+
+
+def _inter_impl(case):
+    import lena.core
+    specs = case["brs"]
+    try:
+        objs = [_wrap(sp, _mk_sel(sp, i)) for i, sp in enumerate(specs)]
+        s = lena.core.Split(objs, bufsize=case["bufsize"], copy_buf=case["copy_buf"])
+    except Exception as e:
+        return {"e": exc_name(e), "phase": "init"}
+    flows = case["flows"]
+    gens = [s.run(_as_flow(f, case.get("fk", 0) + j)) for j, f in enumerate(flows)]
+    outs = [[] for _ in flows]
+    ends = [None] * len(flows)
+
+    def step(k):
+        if ends[k] is not None:
+            return
+        try:
+            outs[k].append(next(gens[k]))
+        except StopIteration:
+            ends[k] = "done"
+        except (Exception, _Endless) as e:
+            ends[k] = exc_name(e)
+        if len(outs[k]) > MAX_OUT:
+            ends[k] = "Other:EndlessOutput"
+            outs[k] = outs[k][:12]
+    for k in case["sched"]:
+        if k < len(flows):
+            step(k)
+    for k in range(len(flows)):
+        while ends[k] is None:
+            step(k)
+    return {"outs": canon(outs), "ends": ends}
+
+
+def _oracle_inter(case, res):
+    """every call of run(flow) yields the documented schedule for ITS flow — also when several generators returned
+    by run() of one Split object are alive and consumed alternately (the branches are stateless, so the schedule
+    determines the values)"""
+    specs = case["brs"]
+    what = (f"ONE Split({[_show_s(sp) for sp in specs]}, bufsize={case['bufsize']}, copy_buf={case['copy_buf']}); "
+            f"run() on the flows {case['flows']}, values requested in the order {case['sched']} (then the rest)")
+    if "e" in res:
+        return f"[raised] {what} raised {res['e']} at construction"
+    for k, flow in enumerate(case["flows"]):
+        exp = []
+        _ref_schedule(specs, [_mk_sel(sp, i) for i, sp in enumerate(specs)], case["bufsize"], flow, exp)
+        exp = canon(exp)
+        if res["ends"][k] != "done" or res["outs"][k] != exp:
+            return (f"[reentrant-run] {what}: run {k} yields {res['outs'][k]} (ended: {res['ends'][k]}) but the documented "
+                    f"schedule for its flow {flow} gives {exp}")
+    return None
+
+
+def _show_s(sp):
+    k, f = sp["k"], sp.get("form", "el")
+    if k == "src":
+        return f"src{sp['n']}"
+    if k in ("fc", "fr"):
+        return f"{k}(stops on x>={sp['m']})/{f}"
+    return f"sq({sp['v']})/{f}"
+
+
+def _rand_long(rng):
+    """flows longer than the constants of split.py (the default bufsize 1000): block sizes None / 1000 / around the
+    length; branches with few results so that the replies stay small"""
+    n = rng.choice([999, 1000, 1001, 1024, 1999, 2000, 2001, 2500, rng.randint(1002, 3000), rng.randint(1002, 3000),
+                    4100, 8200])
+    flow = [rng.randint(-3, 9) for _ in range(n)]
+    brs = []
+    for _ in range(rng.randint(1, 3) if n <= 3000 else 1):
+        k = rng.choice(["fr", "fr", "fc", "sq", "sq", "src", "sum"])
+        if k in ("fr", "fc"):
+            sp = {"k": k, "stop": rng.choice([None, None, None, n // 2, 1000, 1001, n - 1, n]), "late": False}
+            if k == "fc":
+                sp["items"] = False
+        elif k == "sq":
+            sp = {"k": "sq", "v": rng.choice(["sumBlock", "sumBlock", "mapEnd", "even", "running", "cache", "lam"])}
+        elif k == "src":
+            sp = {"k": "src", "n": 2}
+        else:
+            sp = {"k": "sum"}
+        sp["form"] = rng.choice(["el", "el", "seq"]) if not (k == "sq" and sp["v"] == "lam") and k != "src" else "el"
+        brs.append(sp)
+    more = [999, 1001, n - 1, n, n + 1, rng.randint(300, n), 2 * n]
+    bss = [None, 1000, rng.choice(more)]
+    return {"op": "run", "brs": brs, "flow": flow, "fk": rng.randrange(5), "bufsizes": bss,
+            "copy_buf": rng.random() < 0.5, "spec": False}
 
 
 def _rand_blocks(rng, maxn):
@@ -927,6 +1250,13 @@ def _rand_zip(rng, maxbr, maxn):
     case = {"op": "zip", "brs": [_rand_spec(rng, len(flow), kinds, pp=False) for _ in range(l)], "flow": flow}
     if r < 0.85 and rng.random() < 0.25:
         case["ctx"] = True
+    elif r < 0.85 and rng.random() < 0.2:
+        # the result generator of one sequence raises after some values (Zip._yield catches StopIteration only)
+        cand = [b for b in case["brs"] if b["k"] in ("fc", "fr")]
+        if cand:
+            b = rng.choice(cand)
+            b["boom_gen"] = rng.randint(0, 2)
+            b["boom_exc"] = rng.choice(GEN_EXCS)
     return case
 
 
@@ -1036,6 +1366,7 @@ def gen_cases(ctx):
     if ctx.tier == "quick":
         exh = {0: 3, 1: 3, 2: 3, 3: 2, 4: 2}
         n_run, n_meth, n_zip, n_runx, n_zctx, n_real = 900, 500, 400, 900, 400, 500
+        n_inter, n_long = 500, 10
         maxbr, maxn = 4, 8
         spec_every, spec_p = 1, 1.0
     else:
@@ -1043,6 +1374,7 @@ def gen_cases(ctx):
         # bufsize, both copy_buf, every stop index (lists of length 4 on flows of length 0..3; 0..3 on length 4)
         exh = {0: 4, 1: 4, 2: 4, 3: 4, 4: 3}
         n_run, n_meth, n_zip, n_runx, n_zctx, n_real = 24000, 8000, 6000, 15000, 6000, 12000
+        n_inter, n_long = 10000, 150
         maxbr, maxn = 5, 8
         spec_every, spec_p = 8, 0.3
     ctx.exhaustive = False  # the random part is sampled
@@ -1059,6 +1391,9 @@ def gen_cases(ctx):
         _repeat(n_zctx, _rand_zipctx, sub()),
         _repeat(n_real, _rand_realfc, sub()),
         _init_cases(sub(), ctx.tier),
+        _repeat(n_inter, _rand_inter, sub(), 4, 6),
+        _repeat(n_long, _rand_long, sub()),
+        [{"op": "exc", "name": nm} for nm in EXC_NAMES],
     ]
     return _roundrobin(streams)
 
@@ -1249,6 +1584,10 @@ def _zip_objs(case, log):
     return _build(specs, log)
 
 
+def _zip_booms(case):
+    return any(sp.get("boom_gen") is not None for sp in case["brs"])
+
+
 def _zip_impl(case):
     import lena.core
     import lena.flow
@@ -1258,6 +1597,7 @@ def _zip_impl(case):
         z = lena.flow.Zip(_zip_objs(case, log))
     except Exception as e:
         return {"e": exc_name(e), "phase": "init"}
+    r = []
     try:
         stopped = False
         for x in flow:
@@ -1266,15 +1606,17 @@ def _zip_impl(case):
             except lena.core.LenaStopFill:
                 stopped = True
                 break
-        if hasattr(z, "compute"):
-            r = list(z.compute())
-            r2 = list(z.compute())
-        else:
-            r = list(z.request())
-            r2 = list(z.request())
-    except Exception as e:
+        meth = z.compute if hasattr(z, "compute") else z.request
+        _drain(meth(), r)
+        r2 = list(meth())
+    except (Exception, KeyboardInterrupt) as e:
+        if _zip_booms(case):
+            return {"stopped": stopped, "r": canon(r), "raised": exc_name(e)}
         return {"e": exc_name(e), "phase": "use"}
     res = {"stopped": stopped, "r": canon(r), "r2": canon(r2)}
+    if _zip_booms(case):
+        res["raised"] = None
+        return res
     if not case.get("ctx"):
         # independent reference for the columns: the same elements, filled alone
         log2 = []
@@ -1374,7 +1716,14 @@ def _zipctx_impl(case):
 def _real_flow(case):
     """a fresh flow for every use: values with context are (data, dict) pairs with their own dict objects"""
     import copy
-    return [((v[0], copy.deepcopy(v[1])) if isinstance(v, list) else v) for v in case["flow"]]
+
+    def val(v):
+        if isinstance(v, dict):
+            return copy.deepcopy(v["bare"])     # a value without context that is itself a list / a dict
+        if isinstance(v, list):
+            return (copy.deepcopy(v[0]), copy.deepcopy(v[1]))
+        return v
+    return [val(v) for v in case["flow"]]
 
 
 def _outcome(fn):
@@ -1651,6 +2000,10 @@ def _run_impl(case):
         return _zipctx_impl(case)
     if op == "realfc":
         return _realfc_impl(case)
+    if op == "inter":
+        return _inter_impl(case)
+    if op == "exc":
+        return _exc_impl(case)
     if op == "zip":
         return _zip_impl(case)
     if op == "init":
@@ -1681,6 +2034,11 @@ def model_requests(case):
         return [{"op": "methods", "brs": [_mspec(s) for s in case["brs"]], "blocks": case["blocks"]}]
     if op == "realfc":
         return []  # values are changed in place by the branches: outside the value model (aliasing: C04); oracle only
+    if op == "exc":
+        return [{"op": "exc", "name": case["name"]}]
+    if op == "inter":
+        return [{"op": "inter", "brs": [_mspec(s) for s in case["brs"]], "flows": case["flows"], "sched": case["sched"],
+                 "bufsize": case["bufsize"], "copy_buf": case["copy_buf"]}]
     if op == "zipctx":
         return [{"op": "zipctx", "n": len(ZKEYS), "zk": ZKEYS.index("zip"), "fields": case["fields"],
                  "kind": case["kind"],
@@ -1691,6 +2049,8 @@ def model_requests(case):
     if op == "zip":
         if case.get("ctx"):
             return []  # values with context: outside the model (Zip._create_context is C07's algebra); oracle only
+        if _zip_booms(case):
+            return []  # a raising result generator: the Zip model has no exceptions; oracle only
         return [{"op": "zip", "brs": [_mspec(s) for s in case["brs"]], "flow": case["flow"]}]
     if op == "init":
         return [{"op": "init", "objs": case["objs"], "bufsize": case["bufsize"], "is_list": case["is_list"]}]
@@ -1703,8 +2063,9 @@ def _mspecx(sp):
     m = _mspec(sp)
     m.setdefault("boom_fill", None)
     m.setdefault("boom_gen", None)
-    if m.get("boom_exc") is None:
-        m.pop("boom_exc", None)
+    for k in ("boom_exc", "boom_fill_exc"):
+        if m.get(k) is None:
+            m.pop(k, None)
     return m
 
 
@@ -1842,7 +2203,7 @@ def _cmp_runx(case, res, m):
             if not (isinstance(it, list) and it[2] == "Other:ValueError" and it[1] is None):
                 return f"{what}: model: islice rejects the bufsize (ValueError before any call); impl ended with {it}"
         elif isinstance(mt, list):
-            want = mt[2] if mt[2].startswith("Lena") else "Other:" + mt[2]
+            want = _xname(mt[2])
             if not (isinstance(it, list) and it[1] == mt[1] and it[2] == want):
                 return f"{what}: impl ended with {it} vs model {mt}"
         elif it != mt:
@@ -1890,6 +2251,23 @@ def compare(case, res, replies):
         return None
     if op == "runx":
         return _cmp_runx(case, res, m)
+    if op == "exc":
+        if res != m:
+            return f"class {case['name']}: lena/builtins give {res}, Lean `ExcClass` / `catchStopFill` give {m}"
+        return None
+    if op == "inter":
+        if "e" in res:
+            return f"impl raised {res}; model {jdump(m)[:300]}"
+        if res["ends"] != ["done"] * len(case["flows"]):
+            return f"impl: the runs ended {res['ends']}; in the model every run ends normally"
+        if res["outs"] != m["outs"]:
+            return f"impl yields {res['outs']} vs Lean `interleave` (generator machines on shared objects) {m['outs']}"
+        if m["alone"] != m["outs"]:
+            return f"Lean: `interleave` {m['outs']} differs from `Split.run` of every flow alone {m['alone']}"
+        if case["brs"] and (m["gen"] != m["alone"] or m["micro"] != m["alone"]):
+            return (f"Lean: `genIter` alone {m['gen']} / `runSched` {m['micro']} differ from `Split.run` of every "
+                    f"flow {m['alone']}")
+        return None
     if op == "zipctx":
         if "init" in res or "init" in m:
             a, b = res.get("init", {}).get("e"), m.get("init", {}).get("e")
@@ -2159,6 +2537,28 @@ def _oracle_zip(case, res):
     log = []
     els = [_mk_el(sp, i, log) for i, sp in enumerate(specs)]
     stopped = _ref_fill_all(els, flow)
+    if _zip_booms(case):
+        # the tuples of the i-th results, up to the shortest — or up to the first exception of a result generator,
+        # which is not the end of that sequence's results: it propagates
+        its = [(el.compute() if common == "fill_compute" else el.request()) for el in els]
+        exp, raised = [], None
+        try:
+            while True:
+                vals = []
+                for it in its:
+                    vals.append(next(it))
+                exp.append(vals)
+        except StopIteration:
+            pass
+        except (Exception, KeyboardInterrupt) as e:
+            raised = exc_name(e)
+        exp = canon(exp)
+        # how many of the tuples are handed out before the exception is laziness (C02), not claimed here
+        ok_r = res["r"] == exp if raised is None else res["r"] == exp[:len(res["r"])]
+        if res["stopped"] != stopped or not ok_r or res["raised"] != raised:
+            return (f"[zip-exception] {what} filled with {flow} yields {res['r']} and ends with {res['raised']}; the tuples of "
+                    f"the i-th results are {exp}, ending with {raised} (an exception of a result generator propagates)")
+        return None
     results = [list(el.compute() if common == "fill_compute" else el.request()) for el in els]
     exp = canon([list(t) for t in zip(*results)])
     results2 = [list(el.compute() if common == "fill_compute" else el.request()) for el in els]
@@ -2309,6 +2709,14 @@ def oracle(case, res):
         return _oracle_zipctx(case, res)
     if op == "realfc":
         return _oracle_realfc(case, res)
+    if op == "inter":
+        return _oracle_inter(case, res)
+    if op == "exc":
+        # the property names LenaStopFill as the signal: the class itself must be one (the rest of the hierarchy is
+        # compared with its Lean transcription)
+        if case["name"] == "LenaStopFill" and not res["stop"]:
+            return "[stop-signal-class] lena.core.LenaStopFill is not caught by `except LenaStopFill`"
+        return None
     if op == "zip":
         return _oracle_zip(case, res)
     if op == "init":
@@ -2323,7 +2731,7 @@ def _show(sp):
     f = sp.get("form", "el")
     if k == "src":
         return f"src{sp['n']}"
-    boom = "".join(f",{b}={sp[b]}" for b in ("boom_fill", "boom_gen", "boom_exc") if sp.get(b) is not None)
+    boom = "".join(f",{b}={sp[b]}" for b in ("boom_fill", "boom_fill_exc", "boom_gen", "boom_exc") if sp.get(b) is not None)
     if k == "fc":
         return f"fc(stop={sp['stop']}{',late' if sp['late'] else ''}{',items' if sp['items'] else ''}{boom})/{f}"
     if k == "fr":
@@ -2346,6 +2754,8 @@ def nontrivial(case, res):
         return "init" in res or bool(res["r"]) or res["raised"] is not None
     if op == "realfc":
         return len(case["brs"]) >= 2 and bool(case["flow"])
+    if op == "inter":
+        return "outs" in res and sum(1 for o in res["outs"] if o) >= 2 and len(set(case["sched"])) >= 2
     if op == "methods":
         return bool(res.get("fc") or res.get("fr") or (isinstance(res.get("call"), list) and res["call"]))
     if op == "zip":
@@ -2365,12 +2775,18 @@ def classify(case, res):
             labels.append("run:empty-flow")
         if any(sp["k"] == "nest" for sp in case["brs"]):
             labels.append("run:nested-split")
+        if len(case["flow"]) > 1000:
+            labels.append("run:flow>1000")
         forms = set(sp.get("form", "el") for sp in case["brs"])
         labels += [f"form:{f}" for f in sorted(forms)]
         return labels
     if op == "realfc":
+        mut = any(isinstance(v, dict) or (isinstance(v, list) and not isinstance(v[0], int)) for v in case["flow"])
         return ["realfc:" + case["kind"], "realfc:copy_buf=%s" % case["copy_buf"],
-                "realfc:" + ("raises" if "e" in res["run"] else "ok")]
+                "realfc:" + ("raises" if "e" in res["run"] else "ok"),
+                "realfc:" + ("mutable-data" if mut else "int-data")]
+    if op == "inter":
+        return ["inter:runs=%d" % len(case["flows"]), "inter:" + ("ok" if "outs" in res else "raised")]
     if op == "zipctx":
         if "init" in res:
             return ["zipctx:init-" + res["init"]["e"]]
@@ -2389,6 +2805,11 @@ def classify(case, res):
             labels.append("runx:cache-like")
         if case["bufarg"] is not None and "int" not in case["bufarg"]:
             labels.append("runx:bufsize-not-int")
+        for sp in case["brs"]:
+            if sp.get("boom_fill") is not None:
+                labels.append("runx:fill-raises:" + ("stop-signal-class" if _is_stop_class(sp.get("boom_fill_exc"))
+                                                     else "lena-error" if (sp.get("boom_fill_exc") or "").startswith(("Lena", "SubLena"))
+                                                     else "other"))
         return labels
     if op == "methods":
         if "e" in res:
@@ -2396,6 +2817,8 @@ def classify(case, res):
         return ["methods:" + ("fc" if res["fc"] else "fr" if res["fr"] else
                               "call" if isinstance(res["call"], list) else "none")]
     if op == "zip":
+        if _zip_booms(case) and "e" not in res:
+            return ["zip:result-generator-raises:" + str(res.get("raised"))]
         return ["zip:" + (res["e"] if "e" in res else "ok") + (":with-context" if case.get("ctx") else "")]
     if op == "init":
         return ["init:" + (res["split"].get("e") or "ok"), "zipinit:" + (res["zip"].get("e") or "ok")]
@@ -2440,8 +2863,18 @@ def shrink(case):
                 yield dict(case, bufsizes=[bs])
             for i in range(len(case["bufsizes"])):
                 yield dict(case, bufsizes=case["bufsizes"][:i] + case["bufsizes"][i + 1:])
-        for i in range(len(flow)):
-            yield dict(case, flow=flow[:i] + flow[i + 1:])
+        size = len(flow) // 2
+        while size >= 8:
+            # long flows: whole chunks first
+            for a in range(0, len(flow), size):
+                yield dict(case, flow=flow[:a] + flow[a + size:])
+            size //= 2
+        if len(flow) <= 64:
+            for i in range(len(flow)):
+                yield dict(case, flow=flow[:i] + flow[i + 1:])
+        else:
+            for i in (0, len(flow) - 1):
+                yield dict(case, flow=flow[:i] + flow[i + 1:])
     if op == "zip":
         flow = case["flow"]
         for i in range(len(flow)):
@@ -2472,6 +2905,24 @@ def shrink(case):
                     yield dict(case, brs=brs[:i] + [dict(sp, **{k: v})] + brs[i + 1:])
             if isinstance(sp.get("stop"), int) and sp["stop"] > 0:
                 yield dict(case, brs=brs[:i] + [dict(sp, stop=sp["stop"] - 1)] + brs[i + 1:])
+    if op == "inter":
+        brs, fl, sc = case["brs"], case["flows"], case["sched"]
+        for i in range(len(brs)):
+            yield dict(case, brs=brs[:i] + brs[i + 1:])
+        if len(fl) > 2:
+            yield dict(case, flows=fl[:-1], sched=[k for k in sc if k < len(fl) - 1])
+        for k in range(len(fl)):
+            for i in range(len(fl[k])):
+                yield dict(case, flows=fl[:k] + [fl[k][:i] + fl[k][i + 1:]] + fl[k + 1:])
+        if len(sc) > 1:
+            yield dict(case, sched=sc[:len(sc) // 2])
+        for i in range(len(sc)):
+            yield dict(case, sched=sc[:i] + sc[i + 1:])
+        for i, sp in enumerate(brs):
+            if sp.get("form", "el") != "el" and sp["k"] != "src":
+                yield dict(case, brs=brs[:i] + [dict(sp, form="el")] + brs[i + 1:])
+        if case["bufsize"] != 1:
+            yield dict(case, bufsize=1)
     if op == "realfc":
         brs, flow = case["brs"], case["flow"]
         for i in range(len(brs)):
@@ -2515,7 +2966,8 @@ TRUSTED = [
     "hand transcription of lena/core/split.py (run, _fill, _compute, _request, __call__, __init__, _get_seq_with_type), "
     "lena/core/check_sequence_type.py and lena/flow/zip.py (__init__ incl. fields, _fill, _compute/_request, _yield, "
     "_create_data) into LenaModel/Model/C03.lean, C03X.lean (exceptions of branches, objects after the run, bufsize "
-    "arguments), C03Zip.lean (values with context; _create_context is Lena.C07.zipCreateContext), validated by this "
+    "arguments), C03Exc.lean (class hierarchy of lena/core/exceptions.py, the `except LenaStopFill` clause), C03G.lean "
+    "(Split.run as a generator machine on shared branch objects), C03Zip.lean (values with context; _create_context is Lena.C07.zipCreateContext), validated by this "
     "correspondence check; the specification-side definitions (Model/C03Spec.lean, blocks, schedule, life) are executed "
     "by the driver and compared with the real code / Python references as well",
     "the instrumented harness elements (harness/props/c03.py) and their Lean counterparts (BSpec.ops, XSpec.ops), "
@@ -2535,11 +2987,33 @@ ASSUMPTIONS = [
     "(all generated); `flow = iter(flow)` is transcribed as FlowArg.iter (same content), flows are lists in Lean",
     "generators returned by branch methods are consumed to the end by Split.run unless they raise (finite flows; "
     "laziness is C02); the harness elements compute their results when the method is called (state changes while "
-    "a generator is being consumed are outside); an exception of a branch (ValueError from fill; ValueError, "
-    "LenaStopFill or KeyboardInterrupt from inside a generator) is modelled for the branches of the enclosing "
-    "Split, not inside a nested Split",
+    "a generator is being consumed are outside); an exception of a branch (from fill: any class of the lena "
+    "hierarchy incl. LenaException itself and user-defined subclasses of LenaException / LenaStopFill, ValueError, "
+    "RuntimeError, Exception, KeyboardInterrupt; from inside a generator: ValueError, Exception, LenaStopFill and a "
+    "subclass, LenaValueError, LenaException, LenaRuntimeError, KeyboardInterrupt) is modelled for the branches of the "
+    "enclosing Split, not inside a nested Split; StopIteration / GeneratorExit raised by a branch are not generated "
+    "(PEP 479 turns them into RuntimeError inside the generator Split.run)",
+    "JUDGEMENT (adversary round): only LenaStopFill — as an `except` clause understands it: the class and its "
+    "subclasses — is the stop signal; a fill() that raises any other exception (other LenaException subclasses "
+    "included) is NOT 'finalised and dropped': the exception leaves Split.run and cuts the schedule there "
+    "(theorems foreign_fill_error_not_finalised, runX_prefix, runX_raised_cut)",
+    "JUDGEMENT (adversary round): 'for every flow the output of Split.run is …' holds for EVERY call of run, also "
+    "while generators returned by earlier calls on the same Split object are still alive and consumed alternately; "
+    "the oracle claims this only for STATELESS branches (op inter), where the statement determines the values "
+    "whatever the order of consumption; with stateful branches shared between two live runs the outcome depends on "
+    "how far each generator has got and is not claimed (Lean: interleaved_runs needs StoreStateless; a stateful "
+    "counterexample is an `example` in Props/C03G.lean)",
+    "JUDGEMENT (adversary round): bufsize=None means ONE block however long the flow (docstring: 'whole input "
+    "flow is materialized in the buffer'); flows up to 3000 (a few up to 8200) values are generated (longer than the default "
+    "bufsize 1000, the only size constant in the anchored files); the DEFAULT value of bufsize (1000) is not part "
+    "of the statement and is not checked",
+    "JUDGEMENT (adversary round): copy_buf=True means every branch but the last works on a DEEP copy of the block "
+    "(Split.run docstring) / of the value (Split.fill, Zip.fill): in-place changes of the data part, of the "
+    "context, of nested containers and of bare mutable values by one branch are invisible to the others (op realfc: "
+    "Mut* elements change every mutable container reachable from a value); flow values do not share mutable "
+    "sub-objects with each other (copying a block as a whole vs value by value is not distinguished)",
     "arguments of Split/Zip: a single object, a tuple or a list of elements, or an explicit lena sequence; other "
-    "iterables (generators, __getitem__-only objects) are not generated; meta.alter_sequence is the identity on all "
+    "iterables (generators, __getitem__-only objects) are not generated; bufsize is always passed explicitly; meta.alter_sequence is the identity on all "
     "generated arguments (no element has alter_sequence) and is not modelled; whether Split.__call__ raises "
     "LenaAttributeError at the call or at the first next() is not distinguished (observed by consuming the result)",
     "'with the same meaning' (common-type fill/compute, fill/request, nested): proved when no branch signals "
@@ -2560,12 +3034,19 @@ RULE = ("op=run: one case = (branch list, flow, copy_buf) run under EVERY bufsiz
         "elements incl. a Cache-like one with is_cache (Split then reads the whole flow: Cache rule), lena.math.Sum, late/multi-result variants, every argument form accepted by "
         "_get_seq_with_type incl. tuples with pre-/post-processing callables, a common-type Split nested as a branch); "
         "for the cases flagged spec (all in quick, 1/8 resp. 30% in thorough) also the interleaved per-branch trace "
-        "against the Lean closed forms; op=runx: branches raising ValueError from fill or ValueError / LenaStopFill / KeyboardInterrupt from inside "
-        "their generators, 1..3 consecutive runs of one Split object with the element states read back after each run, "
+        "against the Lean closed forms; long flows (999..3000, some 4100 / 8200 values, 10 cases in quick / 150 in thorough) with bufsize None, 1000 and one of "
+        "{999, 1001, len-1, len, len+1, random, 2*len}; op=runx: branches raising from fill an exception of one of 16 classes (ValueError, "
+        "RuntimeError, Exception, KeyboardInterrupt, LenaException, nine of its subclasses incl. a user-defined one, LenaStopFill and a "
+        "user-defined subclass of it — the last two ARE stop signals) or from inside their generators one of 8 classes, "
+        "1..3 consecutive runs of one Split object with the element states read back after each run, "
         "nested Splits of any inner mix (run once per block when they have no common fill type), bufsize arguments "
-        "that are not int; op=methods / zip (incl. a second compute()/request() of the same Zip): random common-type "
+        "that are not int; op=inter: ONE Split object over stateless branches (Source, value-dependent LenaStopFill in "
+        "fill/compute and fill/request branches, per-value run elements, every argument form), 2..3 generators run(flow_k) "
+        "alive at once and consumed in a random / zip-like / nested order: every run must yield the schedule of its own flow "
+        "(oracle) = Lean generator machines on one shared object store = Split.run per flow; op=methods / zip (incl. a "
+        "second compute()/request() of the same Zip, and a result generator that raises: oracle only): random common-type "
         "and mixed branch lists; op=zipctx: Zip over canned results with random contexts over {a,b,zip}, fields as "
-        "list/str/none of every length, reset(); op=realfc (oracle only): common-type Splits of real lena accumulators (Count, Sum, Mean, StoreFilled) and of harness elements that change / keep the value objects they are filled with, on (data, context) values: with copy_buf=True fill-all-then-compute (block-wise fill then request) == run(flow) == the same Split nested in another one == the branches driven alone on their own copies; op=init: attributes present but not callable, lists of elements, is_cache flags, every capability subset as a single argument, tuples over "
+        "list/str/none of every length, reset(); op=realfc (oracle only): common-type Splits of real lena accumulators (Count, Sum, Mean, StoreFilled) and of harness elements that change IN PLACE every mutable container reachable from a value (data part, context, nested lists/dicts) / keep the value objects they are filled with, on (data, context) values whose data is an int, a list, a nested list or a dict, and on bare mutable values: with copy_buf=True fill-all-then-compute (block-wise fill then request) == run(flow) == the same Split nested in another one == the branches driven alone on their own copies; op=init: attributes present but not callable, lists of elements, is_cache flags, every capability subset as a single argument, tuples over "
         "16 representative capability sets, pairs, random lists, check_sequence_type predicates called directly; "
         "corpus/C03: regression cases. "
         "Non-trivial: >= 2 branches and a non-empty output (run), a non-empty result or an exception (others).")
@@ -2581,7 +3062,12 @@ LEVEL_TEXT = ("Lean 4 theorems about a transcribed model of Split.run (block loo
               "signals LenaStopFill; the unrestricted statement is proved false), the Cache rule of __init__, "
               "tuple conversions, the objects left in self._seqs (each determined by its own branch; running a Split "
               "twice), an exception of a branch cutting the schedule right after the raising call without changing what precedes "
-              "it (prefix + cut theorems), Zip's i-th "
+              "it (prefix + cut theorems), the class hierarchy of lena's exceptions with the `except LenaStopFill` clause "
+              "(exactly LenaStopFill and its subclasses stop a branch; any other exception of fill leaves the branch "
+              "un-finalised and ends the run), bufsize=None as one block of any length, Split.run as a GENERATOR MACHINE "
+              "with a private frame and shared branch objects (alone it produces Split.runTrace: gen_alone, for arbitrary "
+              "stateful branches; under any interleaving of any number of generators of one Split over stateless branches "
+              "each yields Split.run of its own flow: interleaved_runs), Zip's i-th "
               "tuples and losslessness on values with context. The model is tied to /repo by a correspondence check on "
               "event traces (outputs, per-branch invocation logs, per-branch interleaved traces, element states) that "
               "enumerates the four kinds x every bufsize x both copy_buf x every LenaStopFill index for branch lists "
